@@ -9,92 +9,6 @@ import TarsModel.Proofs.SchemaRT3
 namespace Tars
 open Consts
 
-theorem HeadAt.ne_nil {tag : Nat} {bs : Bytes} (h : HeadAt tag bs) : bs ≠ [] := by
-  obtain ⟨hty, rest, _, _, rfl⟩ := h
-  intro h0
-  have h1 : writeHead hty tag = [] := (List.append_eq_nil_iff.mp h0).1
-  have hp := writeHead_length_pos hty tag
-  rw [h1] at hp
-  simp at hp
-
-theorem writeScalar_ne (ty : Ty) (v : Val) (tag : Nat) (h : ScalarOK ty v) :
-    writeScalar ty v tag ≠ [] := by
-  cases ty <;> cases v <;> simp only [ScalarOK] at h
-  all_goals simp only [writeScalar]
-  all_goals first
-    | exact (writeInt8_headAt _ _).ne_nil
-    | exact (writeInt16_headAt _ _).ne_nil
-    | exact (writeInt32_headAt _ _).ne_nil
-    | exact (writeInt64_headAt _ _).ne_nil
-    | exact (writeString_headAt _ _).ne_nil
-    | exact (HeadAt.mk' (by decide) (by decide)).ne_nil
-
-/-- a required member / an element always occupies at least one byte -/
-theorem encVar_req_ne (env : Env) (tag : Nat) (ty : Ty) (dflt : Option Val) (v : Val)
-    (h : WT env ty v) : encVar env tag true ty dflt v ≠ [] := by
-  cases v with
-  | list vs =>
-    cases ty <;> simp only [WT] at h
-    all_goals
-      rw [encVar]
-      simp only [Bool.not_true, Bool.false_and, Bool.false_eq_true, if_false]
-      split
-      · exact (HeadAt.ne_nil ⟨tySimpleList, _, by decide, by decide, by (simp only [List.append_assoc]; rfl)⟩)
-      · exact (HeadAt.ne_nil ⟨tyLIST, _, by decide, by decide, by (simp only [List.append_assoc]; rfl)⟩)
-  | map kvs =>
-    cases ty <;> simp only [WT] at h
-    rw [encVar]
-    simp only [Bool.not_true, Bool.false_and, Bool.false_eq_true, if_false]
-    exact (HeadAt.ne_nil ⟨tyMAP, _, by decide, by decide, by (simp only [List.append_assoc]; rfl)⟩)
-  | struct vs =>
-    cases ty <;> simp only [WT] at h
-    rename_i name
-    rw [encVar]
-    cases hfs : env.find name with
-    | none => simp [hfs] at h
-    | some fs =>
-      simp only
-      exact (HeadAt.ne_nil ⟨tyStructBegin, _, by decide, by decide, by (simp only [List.append_assoc]; rfl)⟩)
-  | bool b =>
-    have hs : ScalarOK ty (.bool b) := by simpa only [WT] using h
-    rw [encVar_scalarVal env tag true ty dflt _ hs]
-    split
-    · exact writeScalar_ne _ _ _ hs
-    · simp only [Bool.not_true, Bool.false_and, Bool.false_eq_true, if_false]
-      exact writeScalar_ne _ _ _ hs
-  | int b =>
-    have hs : ScalarOK ty (.int b) := by simpa only [WT] using h
-    rw [encVar_scalarVal env tag true ty dflt _ hs]
-    split
-    · exact writeScalar_ne _ _ _ hs
-    · simp only [Bool.not_true, Bool.false_and, Bool.false_eq_true, if_false]
-      exact writeScalar_ne _ _ _ hs
-  | f32 b =>
-    have hs : ScalarOK ty (.f32 b) := by simpa only [WT] using h
-    rw [encVar_scalarVal env tag true ty dflt _ hs]
-    split
-    · exact writeScalar_ne _ _ _ hs
-    · simp only [Bool.not_true, Bool.false_and, Bool.false_eq_true, if_false]
-      exact writeScalar_ne _ _ _ hs
-  | f64 b =>
-    have hs : ScalarOK ty (.f64 b) := by simpa only [WT] using h
-    rw [encVar_scalarVal env tag true ty dflt _ hs]
-    split
-    · exact writeScalar_ne _ _ _ hs
-    · simp only [Bool.not_true, Bool.false_and, Bool.false_eq_true, if_false]
-      exact writeScalar_ne _ _ _ hs
-  | str b =>
-    have hs : ScalarOK ty (.str b) := by simpa only [WT] using h
-    rw [encVar_scalarVal env tag true ty dflt _ hs]
-    split
-    · exact writeScalar_ne _ _ _ hs
-    · simp only [Bool.not_true, Bool.false_and, Bool.false_eq_true, if_false]
-      exact writeScalar_ne _ _ _ hs
-
-theorem encVar_req_pos (env : Env) (tag : Nat) (ty : Ty) (dflt : Option Val) (v : Val)
-    (h : WT env ty v) : 0 < (encVar env tag true ty dflt v).length :=
-  List.length_pos_iff.mpr (encVar_req_ne env tag ty dflt v h)
-
 /-! ## weighted list bounds -/
 
 theorem needElems_le (K : Nat) (hK : 1 ≤ K) (w : Val → Nat) : ∀ (vs : List Val),
